@@ -722,6 +722,12 @@ def check_C12(ctx):
         ctx.coverage["evaluations"] += a["cases"]
         if cfg == cfgs[0]:
             ctx.coverage["distinct_nontrivial"] += a["distinct_cases"]
+    # the corpus twins carry no callbacks; a fixed twin pair whose callbacks bump (to a found terminator, to the end of the
+    # source, over one character) closes that gap: same items and spans on the same valid UTF-8 text, no panic in either
+    ctx.rules += ["apidrv twin: a fixed definition over str and its utf8 = false twin, with bumping callbacks, on generated valid UTF-8 texts in exactly sized blocks: identical item streams and spans (a panic is a difference)."]
+    for cfg in cfgs:
+        run_apidrv(ctx, build_apidrv(cfg), ["twin"], cfg, count=4000 if ctx.tier == "quick" else 20000)
+    run_apidrv(ctx, build_apidrv("tc", release=True), ["twin"], "tc-release", count=4000 if ctx.tier == "quick" else 20000)
 
 
 
@@ -1209,7 +1215,7 @@ def check_C19(ctx):
         for (o, c) in (("(", ")"), ("(?:", ")"), ("(", ")+"), ("(?:x|", ")")):
             deep.append((d, '#[regex("' + o * d + "a" + c * d + '")]'))
     exe = build_harness()
-    res_stats = {"panicked": 0, "resource_limit": 0, "finished": 0, "depth_specimens": len(deep), "recursive_type_specimens": 4, "depth_accepted": 0, "depth_rejected": 0, "max_depth_accepted": 0}
+    res_stats = {"panicked": 0, "resource_limit": 0, "finished": 0, "depth_specimens": len(deep), "recursive_type_specimens": 0, "depth_accepted": 0, "depth_rejected": 0, "max_depth_accepted": 0}
     def run_depth(item):
         k, (d, attr) = item
         src = f"#[derive(Logos)]\nenum T {{\n    {attr}\n    A,\n    #[token(\"q\")]\n    B,\n}}\n"
@@ -1225,6 +1231,41 @@ def check_C19(ctx):
                    '#[derive(Logos)]\n#[logos(type T = Vec<U>, type U = (u8, T))]\nenum Tok<T, U> {\n    #[token("a", cb)]\n    A(T),\n    #[token("b", cb2)]\n    B(U),\n}\n',
                    '#[derive(Logos)]\n#[logos(type U = T, type T = U)]\nenum Tok<\'a, T, U> {\n    #[token("a")]\n    A(&\'a str),\n    #[token("b", cb2)]\n    B(U),\n}\n',
                    '#[derive(Logos)]\n#[logos(type T = T)]\nenum Tok<T> {\n    #[token("b", cb2)]\n    B(T),\n}\n']
+    # cycles reachable only through a parameter that is not itself part of the cycle, cycles of every length among
+    # up to five parameters, parameters mentioned several times: seeded random "type X = F<Y, Z>" assignments
+    import random as _random
+    rrng = _random.Random(ctx.seed * 7919 + 13)
+    rec_cyclic = {}
+    rec_sources.append('#[derive(Logos)]\n#[logos(type A = Box<B>, type B = Vec<C>, type C = Option<B>)]\nenum Tok<A, B, C> {\n    #[token("a", cb)]\n    X(A),\n    #[token("b", cb2)]\n    Y(B),\n    #[token("c", cb3)]\n    Z(C),\n}\n')
+    wrappers = ["Box<{}>", "Vec<{}>", "Option<{}>", "({}, u8)", "[{}; 2]", "Result<{}, {}>", "&'static {}", "fn({}) -> {}"]
+    for _ in range(40 if ctx.tier == "quick" else 400):
+        n = rrng.randint(3, 5)
+        names = [chr(ord("A") + i) for i in range(n)]
+        items, variants = [], []
+        for i, nm in enumerate(names):
+            k = rrng.choice([0, 1, 1, 1, 2])
+            w = rrng.choice(wrappers)
+            if k == 0:
+                ty = rrng.choice(["u8", "String", "&'static str"])
+            else:
+                picks = [rrng.choice(names) for _ in range(w.count("{}"))]
+                ty = w.format(*picks)
+            items.append(f"type {nm} = {ty}")
+            variants.append(f'    #[token("{chr(ord("a") + i)}", cb{i})]\n    V{i}({nm}),\n')
+        rrng.shuffle(items)
+        # my own verdict: is some parameter defined (transitively) in terms of itself?
+        import re as _re
+        mention = {it.split()[1]: set(_re.findall(r"\b[A-E]\b", it.split("=", 1)[1])) for it in items}
+        def reaches(a, b, seen=None):
+            seen = seen or set()
+            for x in mention[a]:
+                if x == b or (x not in seen and reaches(x, b, seen | {x})):
+                    return True
+            return False
+        rec_cyclic["#[derive(Logos)]\n#[logos(" + ", ".join(items) + ")]\nenum Tok<" + ", ".join(names) + "> {\n" + "".join(variants) + "}\n"] = any(reaches(nm, nm) for nm in names)
+        rec_sources.append("#[derive(Logos)]\n#[logos(" + ", ".join(items) + ")]\nenum Tok<" + ", ".join(names) + "> {\n" + "".join(variants) + "}\n")
+    res_stats_rec = len(rec_sources)
+
     def run_rec(item):
         k, src = item
         fp = os.path.join(sdir, f"rec{k}.rs")
@@ -1234,6 +1275,7 @@ def check_C19(ctx):
             return -1, src, p.returncode, p.stdout
         except subprocess.TimeoutExpired:
             return -1, src, None, "TIMEOUT"
+    res_stats["recursive_type_specimens"] = res_stats_rec
     with ThreadPoolExecutor(max_workers=NCPU) as ex:
         for d, attr, rc, out in list(ex.map(run_depth, enumerate(deep))) + list(ex.map(run_rec, enumerate(rec_sources))):
             ctx.coverage["evaluations"] += 1
@@ -1244,10 +1286,16 @@ def check_C19(ctx):
                 ctx.add_violation({"property": "C19", "level": "L", "rule": "derive-panicked", "detail": out[out.index("Panicked("):][:300], "definition": {"source": brief}})
             elif rc is None:
                 ctx.inconclusive.append(f"depth specimen {brief}: watchdog fired")
+            elif '"outcome":"Accepted"' in out and d < 0 and rec_cyclic.get(attr):
+                ctx.add_violation({"property": "C19", "level": "L", "rule": "recursive-type-parameters-accepted", "detail": "a #[logos(type ..)] assignment in which a parameter is defined in terms of itself was accepted (it cannot be implemented)", "definition": {"source": attr}})
             elif '"outcome":"Accepted"' in out:
+                if d < 0:
+                    res_stats["type_assignments_accepted"] = res_stats.get("type_assignments_accepted", 0) + 1
                 res_stats["depth_accepted"] += 1
                 res_stats["max_depth_accepted"] = max(res_stats["max_depth_accepted"], d)
             elif '"outcome":"Rejected' in out:
+                if d < 0:
+                    res_stats["type_assignments_rejected"] = res_stats.get("type_assignments_rejected", 0) + 1
                 res_stats["depth_rejected"] += 1
             else:
                 ctx.inconclusive.append(f"depth specimen {brief}: unexpected output rc={rc}: {out[-200:]}")
